@@ -1,5 +1,6 @@
 (** C19 — property theorems only.  Stated about the definition GENERATED from the current Python source. *)
-From HailV Require Import Common.Prelude Bunches.Model Bunches.Lemmas.
+From HailV Require Import Common.Prelude Bunches.Model Bunches.Lemmas Bunches.SubmitLemmas.
+From Coq Require Import Permutation.
 From HailG Require C19.Gen.
 Open Scope Z_scope.
 
@@ -37,3 +38,48 @@ Proof.
   specialize (Hspecs x Hx). unfold C19.Gen.spec_ok in Hspecs. lia.
 Qed.
 Print Assumptions C19_limits.
+
+(** ** What is SENT (Batch._submit): the hand model [Model.submit] of the submission path applied to the bunches
+    of the GENERATED [create_bunches] ([gen_bunch]); [submit] is tied to the real code by the correspondence run. *)
+
+(** Fast path or slow path, new batch or update: the job-group payloads of the requests, concatenated in request
+    order, are exactly the job-group specs, and the job payloads exactly the job specs (each spec sent once, in order). *)
+Theorem C19_sent_exactly : forall (A : Type) (nb : A -> Z) (mb ms : Z) (created : bool) (groups jobs : list A),
+  let trace := submit_specs (gen_bunch nb mb ms) created groups jobs in
+  sent_groups trace = groups /\ sent_jobs trace = jobs.
+Proof. intros A nb mb ms created groups jobs; exact (pipeline_sends nb mb ms created groups jobs). Qed.
+Print Assumptions C19_sent_exactly.
+
+(** The job requests of the slow path run concurrently (bounded_gather): for EVERY order [J'] in which they reach the
+    server the job groups are still sent in order, every job spec is sent exactly once, and every request carrying a
+    job group precedes every request carrying a job. *)
+Theorem C19_sent_any_completion_order : forall (A : Type) (nb : A -> Z) (mb ms : Z) (created : bool) (groups jobs : list A)
+    (J' : list (request A)),
+  let bunches := gen_bunch nb mb ms (tag false groups) (tag true jobs) in
+  Permutation J' (job_reqs bunches) ->
+  let trace := slow_trace created (group_reqs bunches) J' in
+  sent_groups trace = groups /\ Permutation (sent_jobs trace) jobs
+  /\ (exists pre post, trace = pre ++ post /\ sent_jobs pre = [] /\ sent_groups post = []).
+Proof. intros A nb mb ms created groups jobs J'; exact (pipeline_any_order nb mb ms created groups jobs J'). Qed.
+Print Assumptions C19_sent_any_completion_order.
+
+(** Under the code's own assertions (and byte sizes being non-negative) every request carries at most [ms] specs
+    and fewer than [mb] bytes of specs, and no job-groups/create or jobs/create request is empty. *)
+Theorem C19_sent_limits : forall (A : Type) (nb : A -> Z) (mb ms : Z) (created : bool) (groups jobs : list A),
+  (forall x, 0 <= nb x) ->
+  C19.Gen.limits_ok mb ms = true ->
+  forallb (C19.Gen.spec_ok nb mb) (groups ++ jobs) = true ->
+  Forall (req_ok nb mb ms) (submit_specs (gen_bunch nb mb ms) created groups jobs).
+Proof. intros A nb mb ms created groups jobs; exact (pipeline_limits nb mb ms created groups jobs). Qed.
+Print Assumptions C19_sent_limits.
+
+Theorem C19_sent_limits_any_completion_order : forall (A : Type) (nb : A -> Z) (mb ms : Z) (created : bool)
+    (groups jobs : list A) (J' : list (request A)),
+  (forall x, 0 <= nb x) ->
+  C19.Gen.limits_ok mb ms = true ->
+  forallb (C19.Gen.spec_ok nb mb) (groups ++ jobs) = true ->
+  let bunches := gen_bunch nb mb ms (tag false groups) (tag true jobs) in
+  Permutation J' (job_reqs bunches) ->
+  Forall (req_ok nb mb ms) (slow_trace created (group_reqs bunches) J').
+Proof. intros A nb mb ms created groups jobs J'; exact (pipeline_any_order_limits nb mb ms created groups jobs J'). Qed.
+Print Assumptions C19_sent_limits_any_completion_order.
